@@ -272,3 +272,11 @@ def run(REG, tier, seed, jobs):
     r = _run0(REG, tier, seed, jobs)
     r['parts'].append(run_cfg(tier, seed, jobs))
     return r
+
+
+CHECKS = {
+    'C20/bounded/SemVer.__init__(str)==SemVer-grammar': (_sv_chunk, lambda c: c['s']),
+    'C20/bounded/SemVer-order==section-11': (_order_chunk, lambda c: (c['a'], c['b'])),
+    'C20/bounded/cargo_parse==Cargo-rule': (_acc_chunk, lambda c: (c['req'], c['ver'])),
+    'C20/bounded/eval_cfg==reference': (_cfg_chunk, lambda c: c['raw'][4:-1]),
+}
